@@ -236,6 +236,20 @@ CLAIMS = {
         note="Coq kernel; Reals axioms + classic (also via Flocq); translator thermo.py; torch softplus/round modelled from documentation.",
         technique="Rocq/Coq proof over R (Flocq rounding lemmas, ln/exp) + statement-equality translator + interval-tactic correspondence",
     ),
+    "C02": dict(
+        category="translation_validation",
+        text="Translation validation with a VERIFIED validator: the emitted text of every sampled conv2d/conv3d/pool/flatten/dense stack "
+             "(systematic geometries: rectangular, padding 0..2, stride = rf, pooling with padding and overhanging windows, 3-D incl. "
+             "non-cubic receptive fields, mixed stacks with 3-4 dense layers, Walsh; plus random stacks) is parsed and checked in the Coq "
+             "kernel against the reference circuit Model/ConvNet.eval_net on ALL Boolean inputs; the checker is proved sound (Coq theorem "
+             "C02_validator_sound: success implies memory safety and lane-wise equality for every input and every word size) and composed "
+             "with the proved wrapper/host (C02_counts). The forall-program statement is proved for dense stacks (C01) but not yet for "
+             "the conv/pool emitters, hence this level. Real libraries (gcc -O0..3, four word sizes) are compared with eval-mode PyTorch.",
+        design_ref="DESIGN.md section 6 C02",
+        note="Coq kernel (closed theorems) for the validator soundness; per-program kernel computation for input size <= 9/12; strict C "
+             "parser; compilers; PyTorch eval = reference circuit compared exactly, not proved.",
+        technique="Rocq/Coq-verified validator (lane-parallelism + exhaustive Boolean execution, proved sound) run on parsed emitted C + differential runs",
+    ),
 }
 
 NOT_YET = "not yet built in this revision of /verif (work in progress; see DESIGN.md section 9 build order)"
